@@ -544,7 +544,8 @@ def dscore(obs, sim, eps=1e-6):
 
     if nens == 1:
         # Compute ensemble rank for deterministic forecasts
-        franks = np.argsort(np.argsort(sim[:, 0]))
+        # (tied forecasts share their mid-rank, as in the ensemble case)
+        franks = pd.Series(sim[:, 0]).rank(method="average").values
     else:
         # initialise data
         fmat = np.zeros((nval, nval), dtype=np.float64)
